@@ -479,7 +479,9 @@ func (fr *Frame) inline(fn *ssa.Function, bindings []Term, args []Term, c *block
 	// an inlined call is an anchor like any other call
 	fr.callOrd["call:"+funcKey(fn)]++
 	site := fmt.Sprintf("%s#%d", lastName(funcKey(fn)), fr.callOrd["call:"+funcKey(fn)]-1)
+	fr.anchorArgs = args
 	fr.anchor("before call "+site, c, nil)
+	fr.anchorArgs = nil
 	exit, res, rr := sub.execBody(c.st, c.reach)
 	g.sc.Comment("<<< end inline %s", funcKey(fn))
 	c.st = exit
@@ -539,7 +541,9 @@ func (fr *Frame) applyContract(fc *FuncContract, key string, sig *types.Signatur
 	floor := fmt.Sprintf("(+ %s %d)", g.curBase, g.allocN)
 	env.freshFloor = floor
 	// fire anchored asserts "before call"
+	fr.anchorArgs = args
 	fr.anchor("before call "+site, c, nil)
+	fr.anchorArgs = nil
 	for i, rq := range fc.Requires {
 		label := rq.Label
 		if label == "" {
@@ -666,10 +670,17 @@ func (fr *Frame) anchor(name string, c *blockCtx, results []Term) {
 		}
 		env := fr.baseEnv(c.st)
 		at := fr.curBlock
+		anchorArgs := fr.anchorArgs
 		env.resolve = func(n string, st2 *State) (Term, Ty, bool) {
 			if strings.HasPrefix(n, "$r") {
 				if k, err := strconv.Atoi(n[2:]); err == nil && k < len(results) {
 					return results[k], Ty{Spec: results[k].Sort}, true
+				}
+			}
+			if strings.HasPrefix(n, "$a") {
+				// $aK: the K-th argument of the call the clause is anchored before
+				if k, err := strconv.Atoi(n[2:]); err == nil && k < len(anchorArgs) {
+					return anchorArgs[k], Ty{Spec: anchorArgs[k].Sort}, true
 				}
 			}
 			if n == "$i" {
